@@ -688,6 +688,49 @@ def gen_scripts(thorough):
                                 b.wait(3)
                         b.op("peer_close")
                         finish(b, started, "unsolicited-ccr", "req1", pos=pos, mid=mid, end=end)
+    # the reader goes QUIET in the middle of a frame (header complete, payload not: after the header, in the payload, one byte before the
+    # end) — the reply of the caller that is about to leave, the reply of ANOTHER caller, a reply nobody waits for, a custom message —
+    # and during that window a caller's context is cancelled / the client is closed / a new request is submitted. The cancelled caller
+    # returns at once, Close releases every in-flight caller at once, the write loop takes and writes the new request — all while the
+    # read loop sits in the half-received frame. Then the reader sends the rest, or hangs up.
+    plen = 24
+    for frame in ("own", "other", "nobody", "custom"):
+        for cut in ((10, 11, 10 + plen - 1) if not thorough else (10, 11, 12, 20, 10 + plen - 2, 10 + plen - 1)):
+            for action in ("cancel", "close", "submit", "submit-then-close"):
+                for end in ("rest", "eof"):
+                    for version in ((1,) if not thorough else (1, 2)):
+                        b = cc.SB("c09-quiet-midframe-%s-cut%d-%s-%s-v%d" % (frame, cut, action, end, version), version=version)
+                        b.connect()
+                        base = b.nseen
+                        b.send(1, 20, 8, 491)
+                        b.send(2, 21, 9, 492)
+                        fr = {"own": dict(typ=30, id=base), "other": dict(typ=31, id=base + 1), "nobody": dict(typ=32, id=base + 9),
+                              "custom": dict(typ=1023, id=4000000000)}[frame]
+                        fr = dict(op="peer_send", ver=version, pl=dict(k="tag", len=plen, tag=493), **fr)
+                        b.steps.append(dict(fr, cut=cut))
+                        started = [1, 2]
+                        if action == "cancel":
+                            b.cancel(1)
+                            b.wait(2)
+                        elif action == "close":
+                            b.op("close")
+                            b.wait(1)
+                            b.wait(2)
+                        else:
+                            b.send(3, 22, 5, 494)                   # the write loop registers and writes it; the reader reads it
+                            started.append(3)
+                            if action == "submit":
+                                b.cancel(3)
+                            else:
+                                b.op("close")
+                                b.wait(3)
+                                b.wait(1)
+                        if end == "rest":
+                            b.steps.append(dict(fr, skip=cut))
+                            for c in started:
+                                b.wait(c)
+                        b.op("peer_close")
+                        finish(b, started, "quiet-midframe", "req1", frame=frame, cut=cut, action=action, end=end)
     return out
 
 
@@ -733,6 +776,32 @@ def pred_script(s, g):
         if st_obs and st_obs[0].get("awaiting") not in (0, None):
             extra.append(("cancel-leaves-await-entry", "awaiting map has %s entries after both requests ended (script %s)" % (st_obs[0].get("awaiting"), s["id"])))
     fam = s.get("family") or ""
+    # everywhere: "cancelling one caller's context returns that caller promptly" — at quiescence after the cancellation it has returned
+    for i, (st, o) in enumerate(zip(steps, obs)):
+        if st["op"] == "cancel" and o.get("res") == "blocked":
+            extra.append(("cancelled-caller-does-not-return", "step %d: caller %d had not returned after its context was cancelled (every goroutine "
+                          "parked) (script %s)" % (i, st["caller"], s["id"])))
+            break
+    if fam == "quiet-midframe":
+        what = []
+        cut_at = next(i for i, st in enumerate(steps) if st["op"] == "peer_send" and st.get("cut") is not None)
+        closed_at = next((i for i, st in enumerate(steps) if st["op"] == "close" and i > cut_at), None)
+        rest_at = next((i for i, st in enumerate(steps) if (st["op"] == "peer_send" and st.get("skip") is not None) or st["op"] == "peer_close"), len(steps))
+        for i, (st, o) in enumerate(zip(steps, obs)):
+            if not cut_at < i < rest_at:
+                continue
+            if st["op"] == "cancel" and o.get("res") == "blocked":
+                what.append("step %d: caller %d did not return when its context was cancelled" % (i, st["caller"]))
+            if st["op"] == "wait_caller" and closed_at is not None and i > closed_at and o.get("res") == "blocked":
+                what.append("step %d: caller %d was not released by Close" % (i, st["caller"]))
+            if st["op"] == "expect_frame" and o.get("st") != "ok":
+                what.append("step %d: the request submitted meanwhile was not written (%s): the write loop is held up" % (i, o.get("st")))
+        what += ["%s still blocked after the connection ended" % b[0] for b in bad]
+        if what:
+            return extra + [("peer-quiet-mid-frame:%s" % s["action"], "%s — while the reader had gone quiet %d bytes into a %d-byte frame (%s) (script %s)" % (
+                "; ".join(what), s["cut"], 10 + 24, {"own": "the reply of the caller that leaves", "other": "the reply of another caller",
+                                                     "nobody": "a reply nobody waits for", "custom": "a custom message"}[s["frame"]], s["id"]))]
+        return extra
     if fam.startswith("api-"):
         what, fault = [], False
         for i, (st, o) in enumerate(zip(steps, obs)):
@@ -829,6 +898,49 @@ def pred_script(s, g):
         ", ".join(b[0] for b in bad), s["id"], s.get("family"), phase))]
 
 
+def pred_walk(s, g):
+    """C09 on a random walk (checks/client_walk.py): clauses that hold for ANY script.
+    a cancelled caller has returned at quiescence; after a local Close no call is left blocked; after Close AND the end of the connection
+    Connect has returned too; Close never panics and succeeds at most once; nothing is written after a CloseConnection frame"""
+    bad = []
+    steps, obs = s["steps"], g.get("obs") or []
+    closed_local = ended = False
+    nil_closes = 0
+    for i, (st, o) in enumerate(zip(steps, obs)):
+        op, r = st["op"], o.get("res")
+        if op == "cancel" and r == "blocked":
+            bad.append(("cancelled-caller-does-not-return", "step %d: caller %d had not returned after its context was cancelled (walk %s)" % (i, st["caller"], s["id"])))
+        if op == "close":
+            closed_local = True
+            if r == "nil":
+                nil_closes += 1
+            elif r != "closed":
+                bad.append(("double-close:%s" % r, "step %d: Close returned %s (walk %s)" % (i, r, s["id"])))
+        if op == "peer_close":
+            ended = True
+        if op == "wait_caller" and closed_local and r == "blocked":
+            bad.append(("stuck:caller:walk:close", "step %d: caller %d is still blocked (every goroutine parked) after a local Close (walk %s)" % (i, st["caller"], s["id"])))
+        if op == "wait_connect" and closed_local and ended and r == "blocked":
+            bad.append(("stuck:Connect:walk:close+eof", "step %d: Connect is still blocked after Close and the end of the connection (walk %s)" % (i, s["id"])))
+    if nil_closes > 1:
+        bad.append(("double-close:nil", "Close returned nil %d times (walk %s)" % (nil_closes, s["id"])))
+    seen_cc = False
+    for f in cc.go_view(s, g)["frames"]:
+        if seen_cc:
+            bad.append(("bytes-after-close-connection", "the client wrote a frame (typ %s) after a CloseConnection frame (walk %s)" % (f.get("typ"), s["id"])))
+            break
+        if f.get("st") in ("ok", "timeout-after") and f.get("typ") == cc.T_CLOSE:
+            seen_cc = True
+    if (g.get("final") or {}).get("panics"):
+        bad.append(("panic", "panic: %s (walk %s)" % (g["final"]["panics"][:2], s["id"])))
+    out, seen = [], set()
+    for sg, t in bad:
+        if sg not in seen:
+            seen.add(sg)
+            out.append((sg, t))
+    return out
+
+
 # ------------------------------------------------------------------ the check
 def run(tier, seed, replay=None):
     res = vlib.Result(PID, tier, seed)
@@ -894,7 +1006,7 @@ def run(tier, seed, replay=None):
                 report(sig, text, dict(kind="flood", request=rp["request"], observed=o))
         elif rp.get("kind") == "script":
             g, _ = cc.run_go(exe, [rp["script"]], shards=1)
-            for sig, text in pred_script(rp["script"], g[0] or {}):
+            for sig, text in (pred_walk if rp["script"].get("family") == "walk" else pred_script)(rp["script"], g[0] or {}):
                 report(sig, text, dict(kind="script", script=rp["script"], observed=g[0]))
         return res.finish()
 
@@ -1040,7 +1152,18 @@ def run(tier, seed, replay=None):
                     s["id"], "; ".join(d2[:4])), dict(kind="correspondence", correspondence="C09/client-script", script=s, differences=d2[:10]))
                 res.violations[-1] = res.violations[-1][:3] + (False,)
 
+    # ---- tie 3: model-based random walks (checks/client_walk.py) with the clauses of C09 that hold for any script + Go/model comparison
+    import client_walk as cw
+    wscripts, wstats, wcalls = cw.walks(seed + 109, 3000 if thorough else 300, cw.WEIGHTS[PID], prefix="c09-walk")
+    winfo = cx.run_walks(res, PID, exe, wscripts, pred_walk, reported)
+    walk_ev = cw.evidence(wstats, wscripts, wcalls)
+    walk_ev.update(result=winfo)
+    evals += len(wscripts)
+    dist["walk"] = len(wscripts)
+    nontriv.update(("walk", json.dumps(sc["steps"], sort_keys=True)) for sc in wscripts)
+
     res.coverage.update(
+        walks=walk_ev,
         evaluations=evals, distinct_nontrivial=len(nontriv),
         rule="a case is one run of the reference session on the real Client with one fault point (frame, byte offset, direction) and one "
              "variant (plain / cancel / local Close / second Shutdown), or one frame-level script also run on the model; every case is "
